@@ -57,6 +57,11 @@ def judge(ctx, srcs, label):
             n_bad_unsupported += 1
             key = "outside_model:" + (spec.get("what", spec["cls"]) if spec else "no-spec")[:60]
             ctx.coverage[key] = ctx.coverage.get(key, 0) + 1
+            # outside the specification's fragment: no verdict on the output, but the core must still end clean
+            if vm is not None and vm["cls"] == "OK" and (vm.get("stack"), vm.get("mp"), vm.get("handlers")) != ("0", "0", "0"):
+                ctx.count(case_key=src, nontrivial=True)
+                ctx.violation({"kind": "prog", **rec, "vm": vm["raw"][:600]},
+                              f"{label}: the core is not clean after normal completion: stack={vm.get('stack')} mp={vm.get('mp')} handlers={vm.get('handlers')}")
             continue
         ctx.count(case_key=src, nontrivial=len(spec.get("out", "")) > 0 or spec["cls"] != "OK")
         # ties of the compiler model (instruction streams verbatim) and of the VM model (outcome + residue)
